@@ -439,8 +439,15 @@ func (c cfgSub) reify(opts *options) (interface{}, error) {
 		}
 		for i, v := range arr {
 			opts.activeFields = newFieldSet(parentFields)
+			key := fmt.Sprintf("%d", i)
+			if _, exists := fields[key]; exists {
+				// a name spelled like the position of a list entry (numeric
+				// keys enabled, or above the maximum index): both can not be
+				// told apart in one map, do not drop the name silently
+				return nil, raiseDuplicateKey(c.c, key)
+			}
 			var err error
-			m[fmt.Sprintf("%d", i)], err = v.reify(opts)
+			m[key], err = v.reify(opts)
 			if err != nil {
 				return nil, reifyErrAt(v, err)
 			}
